@@ -185,6 +185,34 @@ func runC09Scenario(c *lib.Ctx, sc c09scen, attempt int) (string, string) {
 				checkReplicas(c, lc, rl, r, 3, fail)
 			}
 			c.Count("led_from_restored_node", 1)
+			// the restored node now has to SERVE a state transfer: another follower goes down, the log is
+			// compacted again, the follower comes back and can only catch up from the restored leader
+			var other string
+			for _, id := range lc.ids(true) {
+				if id != victim {
+					other = id
+				}
+			}
+			if other != "" && nd.IsLeader() {
+				lc.StopGuarded(other)
+				if load(r.Range(3, 8)) {
+					for _, id := range lc.ids(true) {
+						x := lc.Nodes[id]
+						Call(x, func() error { return x.N.VerifForceSnapshot() })
+					}
+					if load(2) {
+						if _, err := lc.Start(other, false, func(cf *NodeCfg) { mod(cf); cf.Bootstrap = false }); err == nil && load(2) {
+							if lc.WaitLeader(20*time.Second) != nil && lc.Quiesce(90*time.Second) {
+								rl.checkAgainstReference(0, true, fail)
+								checkReplicas(c, lc, rl, r, 4, fail)
+								c.Count("transfers_served_by_a_restored_node", 1)
+							} else {
+								c.Count("second_transfer_did_not_converge(inconclusive)", 1)
+							}
+						}
+					}
+				}
+			}
 		} else {
 			c.Count("leadership_transfer_to_restored_node_failed", 1)
 		}
